@@ -196,6 +196,7 @@ def gen_cfg(rng):
         "infl_switch": [[_r3(dur_ms(rng, 100, end_ms - 100)), k] for k in rng.sample(INFLUENCE, 3)]
                        if rng.random() < 0.5 else [],
         "bare_agents": rng.random() < 0.3,
+        "seed_memories": rng.choice([0, 0, 1, 3, 99]),   # Memory records present before the run (99: almost full)
     }
     if cfg["mix_models"]:
         specs = []
@@ -310,7 +311,7 @@ def _choices(form, names, price):
 def build(cfg, seed):
     from happysimulator.components.advertising import AdPlatform, Advertiser, AudienceTier
     from happysimulator.components.behavior import (Agent, AgentState, BoundedConfidenceModel, DeGrootModel,
-                                                    DemographicSegment, Environment, NormalTraitDistribution,
+                                                    DemographicSegment, Environment, Memory, NormalTraitDistribution,
                                                     PersonalityTraits, Population, SocialGraph,
                                                     UniformTraitDistribution, VoterModel)
     from happysimulator.components.behavior.stimulus import (broadcast_stimulus, influence_propagation,
@@ -337,12 +338,16 @@ def build(cfg, seed):
         return ms / 1000.0 if cfg["float_times"] else I(ms)
 
     def fresh_state():
-        return AgentState(
+        st = AgentState(
             satisfaction=srng.randint(2, 9) / 10.0,
             mood=srng.randint(0, 10) / 10.0,
             beliefs={tp: srng.randint(-10, 10) / 10.0 for tp in TOPICS[:srng.randint(1, 3)]},
             needs={"product": srng.randint(0, 10) / 10.0, "security": srng.randint(0, 5) / 10.0},
         )
+        for j in range(cfg.get("seed_memories", 0)):
+            st.add_memory(Memory(time=-1.0 - j, event_type="Childhood", source=f"past-{j}",
+                                 valence=(j % 5 - 2) / 4.0, details={"j": j}))
+        return st
 
     # ------------------------------------------------------------------ population
     gkind = cfg["graph"]
